@@ -50,9 +50,9 @@ CONF = {
         "thorough": {"rapid": [("TestC19", 1500, 16)], "plain": ["TestC19Big"]},
     },
     "C10": {
-        "rule": "(a) bounded-exhaustive: all 4^4 assignments of owner/attester-manager/pauser/token-controller over 4 accounts x pending owner in {absent, each account} x 18 privileged types (valid arguments) x 4 submitters, each run through the real message router on a branch of the committed state that is diffed and discarded; oracle: success <=> submitter holds the matching role, failure => no store changed; (b) rapid histories of role changes and privileged actions over a 7-account universe (previous holders arise naturally); non-trivial = submitter is authorised, or holds another role, or is a previous holder; distinct by (roles, pending, type, submitter) resp. (class, type, submitter)",
-        "quick": {"rapid": [("TestC10", 300, 2)], "plain": ["TestC10Enum"]},
-        "thorough": {"rapid": [("TestC10", 10000, 16)], "plain": ["TestC10Enum"]},
+        "rule": "(a) bounded-exhaustive: all 4^4 assignments of owner/attester-manager/pauser/token-controller over 4 accounts x pending owner in {absent, each account} x 18 privileged types (valid arguments) x 4 submitters, each run through the real message router on a branch of the committed state that is diffed and discarded; oracle: success <=> submitter holds the matching role, failure => no store changed; the same enumeration a second time over four accounts whose addresses have 20, 32, 32 and 21 bytes and agree in their first 20 bytes (TestC10EnumOdd); (b) rapid histories of role changes and privileged actions over a 7-account universe (previous holders arise naturally); non-trivial = submitter is authorised, or holds another role, or is a previous holder; distinct by (roles, pending, type, submitter) resp. (class, type, submitter)",
+        "quick": {"rapid": [("TestC10", 300, 2)], "plain": ["TestC10Enum", "TestC10EnumOdd"]},
+        "thorough": {"rapid": [("TestC10", 10000, 16)], "plain": ["TestC10Enum", "TestC10EnumOdd"]},
         "exhaustive_note": "enumeration part is complete for the stated bound",
     },
     "C11": {
